@@ -22,10 +22,11 @@ FINDINGS = {
                                 "key leaves the old value (save d {k0:v0}; save d {k0:v1} reads back k0=v0)",
     "C27-stale-keys-kept": "hydrex.Save keeps keys that are no longer in the saved items",
     "C27-destroy-leaves-index": "hydrex.Destroy does not remove the domain from the index swamps of its keys",
-    "C27-empty-key-blocks-core-save": "an item with an empty key makes the whole CatalogSaveMany of the core data fail (error only logged) while "
-                                      "the index entries of that Save are written: GetCoreData is empty, GetIndexData lists the domain",
-    "C27-key-separator-collision": "a key containing '/' shares the index swamp of its prefix (\"a/b\" and \"a\": name.Load drops the part after "
-                                   "the separator): GetIndexData(\"a\") lists domains that only hold \"a/b\"",
+    "C27-empty-key-save-ignored": "a Save whose items contain the empty key reports ok but stores nothing: the core CatalogSaveMany fails on the "
+                                  "empty key and the gateway rejects the index request (swamp name with an empty part); GetCoreData stays empty",
+    "C27-key-with-separator-not-indexed": "a Save whose items contain a key with '/' stores the core data but writes NO index entry of that Save "
+                                          "(the 4-part index swamp name makes the gateway reject the whole many-to-many request; Hydrex swallows "
+                                          "the error): GetIndexData never lists the domain, also for the clean keys saved in the same call",
     "C27-index-inconsistent": "GetIndexData does not return exactly the domains whose core data holds the key",
 }
 
@@ -40,9 +41,9 @@ def _norm(tok):
 
 def _hostile_id(toks):
     if "x" in toks:
-        return "C27-empty-key-blocks-core-save"
+        return "C27-empty-key-save-ignored"
     if any(_norm(t) != t for t in toks):
-        return "C27-key-separator-collision"
+        return "C27-key-with-separator-not-indexed"
     return None
 
 
